@@ -668,6 +668,9 @@ pub const EXTREME_DEADLINES_NS: [u128; 5] = [
     ((1u128 << 63) - (1u128 << 33)) * 1_000_000_000,
 ];
 
+/// Generated scripts keep the virtual clock below this (390 days < 2^35 ms).
+pub const MAX_VIRTUAL_NS: u64 = 390 * 86_400 * 1_000_000_000;
+
 /// Generator state: what the "peer" knows (requests seen on the wire) and what exists.
 struct Gen {
     sent_ids: Vec<u64>,
@@ -783,6 +786,8 @@ fn gen_op(rng: &mut Rng, cl: &Client, g: &mut Gen, p: &Params) -> Op {
                 *rng.pick(&[1u64, 250_000, 1_000_000, 7_500_000])
             };
             let step = step.max(1);
+            // stay below 2^35 ms of virtual time: beyond it an idle timer wheel's range is exhausted (known finding)
+            let step = if g.now + step > crate::cli::MAX_VIRTUAL_NS { 1_000_000 } else { step };
             g.now += step;
             Op::Advance(step)
         }
